@@ -1,4 +1,6 @@
-"""C11: shape of the isequencer log batcher (one or two critical sections) and defaults."""
+"""C11: shape of the isequencer log batcher (one or two critical sections) and defaults; the log scan of
+appparts/internal/seqstorage (what goes into a batch, whether reserved-range ids are left out), the
+record-id ranges and the ids of the two sequences."""
 import re
 
 
@@ -21,4 +23,75 @@ def collect(h):
         raise h.Missing(f"{rel}: Start's unflushed threshold test changed")
     if not re.search(r"s\.loadNumToBeFlushed\(\)\s*>=\s*s\.params\.MaxNumUnflushedValues", body):
         raise h.Missing(f"{rel}: batcher's overflow wait test changed")
+    items += scan(h)
     return items
+
+
+def scan(h):
+    # ---- id ranges and sequence ids ----
+    rel = "pkg/istructs/consts.go"
+
+    def const(name):
+        return h.find(rel, r"^const\s+" + name + r"\s*=\s*(.+?)\s*(?://.*)?$", name).group(1)
+
+    def rid(name):
+        m = re.fullmatch(r"RecordID\((\w+)\)", const(name))
+        if not m:
+            raise h.Missing(f"{rel}: {name} is not RecordID(<literal>)")
+        return h.go_int(m.group(1))
+
+    max_raw = rid("MaxRawRecordID")
+    max_res = rid("MaxReservedRecordID")
+    if const("MinReservedRecordID") != "MaxRawRecordID + 1":
+        raise h.Missing(f"{rel}: MinReservedRecordID is no longer MaxRawRecordID + 1")
+    if const("FirstUserRecordID") != "MaxReservedRecordID + 1":
+        raise h.Missing(f"{rel}: FirstUserRecordID is no longer MaxReservedRecordID + 1")
+    blk = h.find(rel, r"NullQNameID QNameID = 0 \+ iota\n((?:\s*\w+\n)+)", "well-known QNameIDs").group(1).split()
+    if "QNameIDWLogOffsetSequence" not in blk or "QNameIDRecordIDSequence" not in blk:
+        raise h.Missing(f"{rel}: the sequence QNameIDs are no longer in the iota block of well-known ids")
+    out = [
+        ("seq_min_reserved_id", "N", str(max_raw + 1), rel + " MinReservedRecordID (= FirstSingletonID)"),
+        ("seq_max_reserved_id", "N", str(max_res), rel + " MaxReservedRecordID"),
+        ("seq_first_user_id", "N", str(max_res + 1), rel + " FirstUserRecordID"),
+        ("seq_wlog_offset_seq", "N", str(1 + blk.index("QNameIDWLogOffsetSequence")), rel + " QNameIDWLogOffsetSequence"),
+        ("seq_record_id_seq", "N", str(1 + blk.index("QNameIDRecordIDSequence")), rel + " QNameIDRecordIDSequence"),
+    ]
+    # the sequences start where the model says: record ids at FirstUserRecordID, WLog offsets at FirstOffset
+    rel = "pkg/istructsmem/appstruct-types.go"
+    h.find(rel, r"AddSeqType\([^\n]*istructs\.QNameIDRecordIDSequence\)\s*,\s*isequencer\.Number\(istructs\.FirstUserRecordID\)\)", "initial record id")
+    h.find(rel, r"AddSeqType\([^\n]*istructs\.QNameIDWLogOffsetSequence\)\s*,\s*isequencer\.Number\(istructs\.FirstOffset\)\)", "initial WLog offset")
+
+    # ---- the scan: argument ODoc tree, new CUD rows, the WLog offset; all record ids go through addToBatch ----
+    rel = "pkg/appparts/internal/seqstorage/impl.go"
+    body = h.func_body(rel, r"^func \(ss \*implISeqStorage\) ActualizeSequencesFromPLog\(", "ActualizeSequencesFromPLog")
+    for pat, what in [
+        (r"if argType\.Kind\(\) == appdef\.TypeKind_ODoc \{\s*ss\.getNumbersFromObject\(event\.ArgumentObject\(\), event\.Workspace\(\), &batch\)", "ODoc argument branch"),
+        (r"for cud := range event\.CUDs \{\s*if !cud\.IsNew\(\) \{\s*continue\s*\}", "new-rows-only loop"),
+        (r"addToBatch\(event\.Workspace\(\), ss\.seqIDs\[seqQName\], cud\.ID\(\), &batch\)", "CUD id into the batch"),
+        (r"SeqID: isequencer\.SeqID\(istructs\.QNameIDWLogOffsetSequence\)\},\s*Value: isequencer\.Number\(event\.WLogOffset\(\)\)", "WLog offset entry"),
+        (r"return batcher\(ctx, batch, isequencer\.PLogOffset\(plogOffset\)\)", "batcher call"),
+    ]:
+        if not re.search(pat, body):
+            raise h.Missing(f"{rel}: the scan no longer has its {what} in the shape the model mirrors")
+    if "seqQName := istructs.QNameRecordIDSequence" not in body:
+        raise h.Missing(f"{rel}: new CUD rows no longer go to the record-id sequence")
+    obj = h.func_body(rel, r"^func \(ss \*implISeqStorage\) getNumbersFromObject\(", "getNumbersFromObject")
+    if not re.search(r"addToBatch\(wsid, ss\.seqIDs\[istructs\.QNameRecordIDSequence\], root\.AsRecordID\(appdef\.SystemField_ID\), batch\)", obj) \
+            or "ss.getNumbersFromObject(c, wsid, batch)" not in obj:
+        raise h.Missing(f"{rel}: getNumbersFromObject no longer walks the argument tree the way the model mirrors")
+    add = h.func_body(rel, r"^func addToBatch\(", "addToBatch")
+    guard = re.search(r"if recID >= istructs\.MinReservedRecordID && recID <= istructs\.MaxReservedRecordID \{[^}]*\breturn\b", add)
+    if guard:
+        flt = True
+    elif "Reserved" not in add and "Singleton" not in add and "FirstUserRecordID" not in add and "if " not in add:
+        flt = False
+    else:
+        raise h.Missing(f"{rel}: addToBatch filters ids in a way the model does not know")
+    out.append(("seq_scan_skips_reserved_ids", "bool", "true" if flt else "false",
+                rel + " addToBatch: ids of the reserved range (singletons) are left out of the record-id sequence"))
+    # the batcher keeps the maximum per key inside one event
+    rel = "pkg/isequencer/impl.go"
+    bat = h.func_body(rel, r"^func \(s \*sequencer\) batcher\(", "batcher")
+    if not re.search(r"if current, exists := maxValues\[sv\.Key\]; !exists \|\| sv\.Value > current \{\s*maxValues\[sv\.Key\] = sv\.Value", bat):
+        raise h.Missing(f"{rel}: batcher's per-event maximum changed shape")
+    return out
